@@ -79,7 +79,55 @@ func c10Kind(d *Defs, f Field) string {
 }
 
 // c10Expectations lists what the property demands of the constructors of a source term.
-func c10Expectations(d *Defs) []c10Expect {
+// c10ConstDisj: the member type reads "this constant, or any value of its type" — what the
+// disjunction_with_constant_to_default pass turns into a scalar whose default is the constant.
+func c10ConstDisj(t *Src) (JV, string, bool) {
+	if t == nil || t.Kind != SOneOfScalars || len(t.Alts) != 2 {
+		return JV{}, "", false
+	}
+	for i, a := range t.Alts {
+		b := t.Alts[1-i]
+		if a.Kind != SConst {
+			continue
+		}
+		pos := "first"
+		if i == 1 {
+			pos = "last"
+		}
+		switch {
+		case a.Const.K == 's' && b.Kind == SString && !b.DateTime:
+			return a.Const, pos + ".string", true
+		case a.Const.K == 'n' && b.Kind == SInt && b.Width == 64 && b.Signed:
+			return a.Const, pos + ".int", true
+		case (a.Const.K == 't' || a.Const.K == 'f') && b.Kind == SBool:
+			return a.Const, pos + ".bool", true
+		}
+	}
+	return JV{}, "", false
+}
+
+func c10JSONKind(v JV) string {
+	switch v.K {
+	case 't', 'f':
+		return "bool"
+	case 'n':
+		if strings.ContainsAny(v.S, ".eE") {
+			return "num"
+		}
+		return "int"
+	case 's':
+		return "string"
+	case 'a':
+		return "list"
+	case 'o':
+		return "struct"
+	}
+	return "null"
+}
+
+// c10Expectations lists what the property demands of the constructors of a source term generated
+// with the term's configured transformations, in one input format.
+func c10Expectations(d *Defs, t c10Term, format string) []c10Expect {
 	var out []c10Expect
 	var walk func(obj, prefix string, s *Src, depth int)
 	walk = func(obj, prefix string, s *Src, depth int) {
@@ -91,6 +139,18 @@ func c10Expectations(d *Defs) []c10Expect {
 			flags := "optional"
 			if f.Required {
 				flags = "required"
+			}
+			if cfg, ok := t.Config[obj+"."+p]; ok {
+				v := mustJV(cfg)
+				out = append(out, c10Expect{obj, p, "config." + c10JSONKind(v), v, flags})
+				continue
+			}
+			if cv, ck, ok := c10ConstDisj(f.Ty); ok && t.CDD && !f.Nullable {
+				// OpenAPI 3.0 spells a constant string as a pattern; other constants are enums there
+				if format != "openapi" || (cv.K == 's' && regexSafeConst(cv.S)) {
+					out = append(out, c10Expect{obj, p, "constdisj." + ck, cv, flags})
+				}
+				continue
 			}
 			switch {
 			case f.Ty.Kind == SConst:
@@ -109,6 +169,93 @@ func c10Expectations(d *Defs) []c10Expect {
 		}
 	}
 	return out
+}
+
+// c10PassesYAML: the transformation file of a term ("" when it configures none)
+func c10PassesYAML(t c10Term) string {
+	if !t.CDD && len(t.Config) == 0 {
+		return ""
+	}
+	var b strings.Builder
+	b.WriteString("passes:\n")
+	if t.CDD {
+		b.WriteString("  - disjunction_with_constant_to_default: {}\n")
+	}
+	if len(t.Config) > 0 {
+		b.WriteString("  - fields_set_default:\n      defaults:\n")
+		keys := make([]string, 0, len(t.Config))
+		for k := range t.Config {
+			keys = append(keys, k)
+		}
+		sort.Strings(keys)
+		for _, k := range keys {
+			fmt.Fprintf(&b, "        \"%%PKG%%.%s\": %s\n", k, t.Config[k])
+		}
+	}
+	return b.String()
+}
+
+// c10Augment adds, to a generated term, the constructs that only exist together with configured
+// transformations: members of the form `constant | type` (both orders; strings, integers, booleans;
+// required and optional) with the disjunction pass, and configured defaults (fields_set_default)
+// on plain scalar members of the root.
+func c10Augment(d *Defs, idx int, seed uint64) c10Term {
+	t := c10Term{}
+	r := newRng(seed*1000003 + uint64(idx)*97 + 11)
+	root := d.lookup(d.Root)
+	if root == nil || root.Kind != SStruct {
+		return t
+	}
+	taken := map[string]bool{}
+	for _, f := range root.Fields {
+		taken[strings.ToLower(strings.ReplaceAll(f.Name, "_", ""))] = true
+	}
+	if idx%3 == 2 {
+		// configured defaults on up to two plain members that declare none
+		dg := newDocGen(d, r, DocOpts{NoForced: true, Plain: true})
+		for _, f := range root.Fields {
+			if len(t.Config) >= 2 || f.Default != nil || f.Nullable || !r.chance(60) {
+				continue
+			}
+			switch f.Ty.Kind {
+			case SBool, SInt, SNum, SString:
+				if f.Ty.Kind == SString && f.Ty.DateTime || oneValued(f.Ty) {
+					continue
+				}
+				if t.Config == nil {
+					t.Config = map[string]string{}
+				}
+				t.Config[d.Root+"."+f.Name] = dg.val(f.Ty, 0).json()
+			}
+		}
+	}
+	if idx%2 == 0 {
+		t.CDD = true
+		consts := []JV{jStr("auto"), jStr(""), jInt(30), jInt(0), jInt(-7), jBool(true), jBool(false)}
+		n := 2 + r.intn(2)
+		for k := 0; k < n; k++ {
+			cv := consts[r.intn(len(consts))]
+			var open *Src
+			switch cv.K {
+			case 's':
+				open = srcString()
+			case 'n':
+				open = srcInt(64, true, nil, nil)
+			default:
+				open = srcBool()
+			}
+			alts := []*Src{srcConst(cv), open}
+			if r.chance(50) {
+				alts = []*Src{open, srcConst(cv)}
+			}
+			name := fmt.Sprintf("zzMode%d", k)
+			if taken[strings.ToLower(name)] {
+				continue
+			}
+			root.Fields = append(root.Fields, Field{Name: name, Ty: srcOneOfScalars(alts...), Required: r.chance(60)})
+		}
+	}
+	return t
 }
 
 func c10At(v JV, path string) (JV, bool) {
@@ -232,6 +379,9 @@ type c10Term struct {
 	Src     string
 	Degrade int
 	Formats []string
+	// configured schema transformations (cog `passes:` file) the case is generated with
+	CDD    bool              // disjunction_with_constant_to_default: `"auto" | string` declares the default "auto"
+	Config map[string]string // fields_set_default: "Object.field" → JSON text of the default
 	Text    map[string]string // hand-written schema text per format (constructs the renderers do not print)
 }
 
@@ -240,6 +390,10 @@ type c10Term struct {
 var c10Pinned = []c10Term{
 	{ID: "scalars", Degrade: 1, Src: `(defs "Root" ("Root" (struct (field "b" (bool) false false true) (field "bf" (bool) true false false) (field "i" (int 64 true - -) false false (n "-3")) (field "z" (int 64 true - -) false false (n "0")) (field "ir" (int 32 true - -) true false (n "7")) (field "f" (num 64 - -) false false (n "2.5")) (field "fi" (num 64 - -) true false (n "3")) (field "fl" (num 64 - -) false false (n "1000000")) (field "s" (string - - false) false false (s "hey")) (field "zs" (string - - false) false false (s "")) (field "sq" (string - - false) true false (s "a\"b\\c")) (field "c" (const (s "fixed")) true false -) (field "ci" (const (n "-47")) false false -))))`},
 	{ID: "const-int", Degrade: 1, Src: `(defs "Root" ("Root" (struct (field "cr" (const (n "75")) true false -) (field "co" (const (n "-47")) false false -) (field "cs" (const (s "fixed")) true false -))))`},
+	{ID: "constant-disjunction", Degrade: 1, CDD: true, Src: `(defs "Root" ("Root" (struct (field "mf" (oneOfScalars (const (s "auto")) (string - - false)) true false -) (field "ml" (oneOfScalars (string - - false) (const (s "auto"))) true false -) (field "nf" (oneOfScalars (const (n "30")) (int 64 true - -)) false false -) (field "nl" (oneOfScalars (int 64 true - -) (const (n "30"))) true false -) (field "bf" (oneOfScalars (const true) (bool)) false false -) (field "zf" (oneOfScalars (const (n "0")) (int 64 true - -)) false false -))))`},
+	{ID: "configured-defaults", Degrade: 1, Config: map[string]string{"Root.i": "42", "Root.s": `"cfg"`, "Root.b": "true", "Root.f": "1.5", "Root.z": "0", "Root.o": "7"},
+		Src: `(defs "Root" ("Root" (struct (field "i" (int 64 true - -) false false -) (field "s" (string - - false) true false -) (field "b" (bool) false false -) (field "f" (num 64 - -) false false -) (field "z" (int 64 true - -) false false -) (field "o" (int 64 true - -) false false (n "3")))))`},
+	{ID: "zero-valued-defaults", Degrade: 1, Src: `(defs "Root" ("Root" (struct (field "zb" (bool) false false false) (field "zi" (int 64 true - -) false false (n "0")) (field "zf" (num 64 - -) false false (n "0")) (field "zs" (string - - false) false false (s "")) (field "rb" (bool) true false false) (field "ri" (int 32 true - -) true false (n "0")) (field "rs" (string - - false) true false (s "")) (field "ze" (ref "EI") false false (n "0")) (field "zl" (array (string - - false)) true false (a (s ""))))) ("EI" (enumI 0 1)))`},
 	{ID: "nullable-scalar", Degrade: 1, Src: `(defs "Root" ("Root" (struct (field "st" (string - - false) false true (s "hey")) (field "n" (int 64 true - -) false true (n "4")))))`},
 	{ID: "list-of-strings", Degrade: 1, Src: `(defs "Root" ("Root" (struct (field "l" (array (string - - false)) false false (a (s "a") (s "b"))) (field "lr" (array (string - - false)) true false (a (s "x"))))))`},
 	{ID: "list-of-ints", Degrade: 1, Src: `(defs "Root" ("Root" (struct (field "li" (array (int 64 true - -)) false false (a (n "1") (n "2"))))))`},
@@ -285,7 +439,13 @@ func c10ParseTerms(args map[string]string) ([]c10Term, error) {
 	from := argInt(args, "from", 0)
 	o := argGenOpts(args)
 	for i := from; i < from+n; i++ {
-		terms = append(terms, c10Term{Src: genDefs(seed, i, o).sexp(), Degrade: argInt(args, "degrade", 2)})
+		d := genDefs(seed, i, o)
+		t := c10Term{}
+		if args["augment"] != "0" {
+			t = c10Augment(d, i, seed)
+		}
+		t.Src, t.Degrade = d.sexp(), argInt(args, "degrade", 2)
+		terms = append(terms, t)
 	}
 	return terms, nil
 }
@@ -323,11 +483,29 @@ func c10Stream(args map[string]string, out *bufio.Writer) error {
 				continue
 			}
 			lab.Opts.Degrade = t.Degrade
-			entries = append(entries, entry{t, lab.AddCase(d, f)})
+			entries = append(entries, entry{t, c10AddCase(lab, d, f, c10PassesYAML(t))})
 		}
 	}
 	if err := lab.Build(); err != nil {
 		return err
+	}
+	// second stage: the instance-independence ops ("new2": construct, mutate everything reachable,
+	// construct again) need to know which packages compile
+	extCases := []*LabCase{}
+	for _, e := range entries {
+		if e.c.Defs != nil && e.c.generated() {
+			extCases = append(extCases, e.c)
+		}
+	}
+	if goExt := c10GoExt(extCases); goExt != "" {
+		lab.AddGoExt("c10ext", map[string]string{"ops.go": goExt})
+	}
+	lab.AddPyExt("c10", c10PyExt(extCases))
+	if err := lab.Build(); err != nil {
+		return err
+	}
+	if e := lab.GoExtErr("c10ext"); e != "" {
+		fmt.Fprintf(out, "-\tharness c10ext does not compile: %s\tFAIL lang=go class=harness got=%s\n", c10Short(labOneLine(e)), c10Short(labOneLine(e)))
 	}
 	// requests
 	var goReqs, pyReqs []LabReq
@@ -356,8 +534,8 @@ func c10Stream(args map[string]string, out *bufio.Writer) error {
 		sort.Strings(sorted)
 		for _, n := range sorted {
 			idx[c.ID+"/"+n] = objreq{len(goReqs), len(pyReqs)}
-			goReqs = append(goReqs, LabReq{c.ID, n, "new", nil})
-			pyReqs = append(pyReqs, LabReq{c.ID, n, "new", nil})
+			goReqs = append(goReqs, LabReq{c.ID, n, "new", nil}, LabReq{c.ID, n, "new2", nil})
+			pyReqs = append(pyReqs, LabReq{c.ID, n, "new", nil}, LabReq{c.ID, n, "new2", nil})
 		}
 	}
 	goRep := lab.GoCall(goReqs)
@@ -378,7 +556,7 @@ func c10Stream(args map[string]string, out *bufio.Writer) error {
 		case c.GenErr != "":
 			// a legitimate schema cog refuses to generate for: an observation of its own
 			// (except CUE's own "structural cycle" verdict on some recursive terms, see LAB.md)
-			exp := c10Expectations(c.Defs)
+			exp := c10Expectations(c.Defs, e.term, c.Format)
 			verdict := "ok"
 			if len(exp) > 0 && !strings.Contains(c.GenErr, "structural cycle") {
 				verdict = fmt.Sprintf("FAIL lang=both class=generr format=%s pinned=%s kind=%s path=%s.%s expected=%s got=%s", c.Format, tag, exp[0].Kind, exp[0].Object, exp[0].Path, exp[0].Want.json(), c10Short(labOneLine(c.GenErr)))
@@ -387,7 +565,7 @@ func c10Stream(args map[string]string, out *bufio.Writer) error {
 			stats["generr"]++
 			continue
 		}
-		exp := c10Expectations(c.Defs)
+		exp := c10Expectations(c.Defs, e.term, c.Format)
 		for _, x := range exp {
 			hist[c.Format+"/"+x.Kind]++
 		}
@@ -489,6 +667,27 @@ func c10Stream(args map[string]string, out *bufio.Writer) error {
 					stats["py.fail"]++
 				}
 			}
+			// instance independence: a second default-constructed value, built after everything
+			// reachable from the first one was mutated, encodes like the first
+			g2, p2 := goRep[r.gi+1], pyRep[r.pi+1]
+			second := func(lang, req, first, again string) {
+				if !strings.HasPrefix(first, "ok ") {
+					return
+				}
+				stats[lang+".second"]++
+				verdict := "ok"
+				if !strings.HasPrefix(again, "ok ") || canonJSON([]byte(again[3:])) != canonJSON([]byte(first[3:])) {
+					verdict = fmt.Sprintf("FAIL lang=%s class=shared-between-instances format=%s pinned=%s kinds=%s path=%s first=%s second=%s", lang, c.Format, tag, okinds, n, c10Short(first), c10Short(labOneLine(again)))
+					stats[lang+".fail"]++
+				}
+				fmt.Fprintf(out, "%s\t%s\t%s\n", req, again, verdict)
+			}
+			if c.GoOK && hasGo {
+				second("go", goReq, g, g2)
+			}
+			if c.PyOK && hasPy {
+				second("py", pyReq, p, p2)
+			}
 		}
 		// a declared member whose object has no constructor at all
 		for o := range byObj {
@@ -512,6 +711,124 @@ func c10Stream(args map[string]string, out *bufio.Writer) error {
 	}
 	_ = os.Stderr
 	return nil
+}
+
+// c10PyExt: Python op "new2" for every struct object: X(), mutate every list / dict / object
+// reachable from it, X() again → ok <json of the second instance>
+func c10PyExt(cases []*LabCase) string {
+	var b strings.Builder
+	b.WriteString(`
+def _c10_mutate(v, depth=0):
+    if depth > 6:
+        return
+    if isinstance(v, list):
+        for x in list(v):
+            _c10_mutate(x, depth + 1)
+        v.append("zzMutated")
+    elif isinstance(v, dict):
+        for x in list(v.values()):
+            _c10_mutate(x, depth + 1)
+        v["zzMutated"] = 1
+    elif hasattr(v, "__dict__") and not isinstance(v, type):
+        for x in list(vars(v).values()):
+            _c10_mutate(x, depth + 1)
+
+
+def _c10_new2(case_id, obj):
+    def fn(payloads):
+        cls = lookup(case_id, obj)
+        first = cls()
+        _c10_mutate(first)
+        return "ok " + dumps(cls())
+    return fn
+
+
+`)
+	for _, c := range cases {
+		for _, o := range c.PyObjects {
+			if o.HasNew {
+				fmt.Fprintf(&b, "register(%q, %q, \"new2\", _c10_new2(%q, %q))\n", c.ID, o.Name, c.ID, o.Name)
+			}
+		}
+	}
+	return b.String()
+}
+
+// c10GoExt: Go op "new2" for every object with a constructor (packages that compile only)
+func c10GoExt(cases []*LabCase) string {
+	var imports, regs strings.Builder
+	n := 0
+	for _, c := range cases {
+		if !c.GoOK {
+			continue
+		}
+		used := false
+		for _, o := range c.GoObjects {
+			if !o.HasNew {
+				continue
+			}
+			used = true
+			n++
+			fmt.Fprintf(&regs, "\tlabrt.Register(%q, %q, \"new2\", func(p []string) string { a := %s.New%s(); mutate(reflect.ValueOf(a), 0); return labrt.OkJSON(%s.New%s()) })\n",
+				c.ID, o.Name, c.ID, o.GoName, c.ID, o.GoName)
+		}
+		if used {
+			fmt.Fprintf(&imports, "\t%q\n", labGoModule+"/"+c.ID)
+		}
+	}
+	if n == 0 {
+		return ""
+	}
+	return "package c10ext\n\nimport (\n\t\"reflect\"\n\n\t\"" + labGoModule + "/labrt\"\n" + imports.String() + ")\n\n" + `
+// mutate changes, in place, everything reachable from v: pointed-to scalars, slice elements, map entries
+func mutate(v reflect.Value, depth int) {
+	if depth > 8 || !v.IsValid() {
+		return
+	}
+	switch v.Kind() {
+	case reflect.Ptr, reflect.Interface:
+		if !v.IsNil() {
+			mutate(v.Elem(), depth+1)
+		}
+	case reflect.Struct:
+		for i := 0; i < v.NumField(); i++ {
+			if v.Type().Field(i).PkgPath == "" {
+				mutate(v.Field(i), depth+1)
+			}
+		}
+	case reflect.Slice:
+		for i := 0; i < v.Len(); i++ {
+			mutate(v.Index(i), depth+1)
+		}
+	case reflect.Map:
+		if !v.IsNil() && v.Type().Key().Kind() == reflect.String {
+			v.SetMapIndex(reflect.ValueOf("zzMutated").Convert(v.Type().Key()), reflect.Zero(v.Type().Elem()))
+		}
+	case reflect.Bool:
+		if v.CanSet() {
+			v.SetBool(!v.Bool())
+		}
+	case reflect.Int, reflect.Int8, reflect.Int16, reflect.Int32, reflect.Int64:
+		if v.CanSet() {
+			v.SetInt(v.Int() ^ 1)
+		}
+	case reflect.Uint, reflect.Uint8, reflect.Uint16, reflect.Uint32, reflect.Uint64:
+		if v.CanSet() {
+			v.SetUint(v.Uint() ^ 1)
+		}
+	case reflect.Float32, reflect.Float64:
+		if v.CanSet() {
+			v.SetFloat(v.Float() + 1)
+		}
+	case reflect.String:
+		if v.CanSet() {
+			v.SetString(v.String() + "z")
+		}
+	}
+}
+
+func init() {
+` + regs.String() + "}\n"
 }
 
 func init() {
